@@ -307,6 +307,8 @@ func (i StartSubroutine) String() string {
 }
 
 func (i StartSubroutine) adjust(offset int, state *GenState) SearchInstruction {
+	// the id is the subroutine's own address: it has to move with the calls that target it
+	i.Id += offset
 	i.EndOffset += offset
 	return i
 }
